@@ -11,7 +11,7 @@ use serde_json::json;
 
 use crate::ctx::{guarded, hex, Ctx, Part};
 
-include!(concat!(env!("OUT_DIR"), "/tracks.rs"));
+use crate::bind::all_tracks;
 
 fn decode(b: &[u8; 6]) -> Result<Track, String> {
     Track::read_le(&mut Cursor::new(&b[..])).map_err(|e| e.to_string())
